@@ -73,6 +73,7 @@ def run_property(pid: str, tier: str, seed: int, explain: bool = False) -> int:
         known_hits = []
         known = load_known()
         total_ob = total_ok = 0
+        distinct = set()
         samples = []
         for use in spec["uses"]:
             result: RuleResult = RULES[use.rule](ctx)
@@ -92,6 +93,7 @@ def run_property(pid: str, tier: str, seed: int, explain: bool = False) -> int:
             n_ok = sum(1 for o in obligations if o["ok"])
             total_ob += n_ob
             total_ok += n_ok
+            distinct.update((result.rule, o.get("id"), o.get("where")) for o in obligations)
             rule_known = []
             rule_viol = []
             for finding in findings:
@@ -147,9 +149,12 @@ def run_property(pid: str, tier: str, seed: int, explain: bool = False) -> int:
             "checker_cmd": f"/venv/bin/python /verif/check {pid} --tier {tier}",
             "trusted_base": ["CPython ast", f"numpy metadata"],
             "evaluations": total_ob,
-            "distinct_nontrivial": total_ok,
-            "rule": "one evaluation = one rule instance (call site, path, registry entry, "
-                    "allocation site, ...) examined on the current tree; all are distinct constructs",
+            "distinct_nontrivial": len(distinct),
+            "rule": "one evaluation = one rule instance (call site on one enumerated path, registry entry, "
+                    "allocation site, parameter, option read, ...) examined on the current tree. distinct = "
+                    "distinct (rule, instance, file:line) triples: the same call site met on several paths is "
+                    "evaluated per path but counted once. Rules create no obligation for constructs they skip, "
+                    "so every counted instance is one whose operands/provenance the rule had to inspect",
             "samples": samples[:12],
             "exhaustive": True,
             "loop_unrolling": ("thorough: loops unrolled up to 3 times (6x path budget), single-unrolling rules "
